@@ -483,6 +483,7 @@ pub async fn run_async(plan: &PlanA, opts: &ExecOpts) -> RunResult {
                 AddrRef::Fixed(a) => Some(*a),
                 AddrRef::LastOffered => cs.last_offered,
                 AddrRef::LastAcked => cs.last_acked,
+                AddrRef::AckedBy(o) => cstate.get(*o).and_then(|x| x.last_acked),
             };
             let mut chaddr16 = c.chaddr.clone();
             chaddr16.resize(16, 0);
